@@ -78,10 +78,102 @@ class Interp:
                     if is_int(b.locals[st[2][2].local]):
                         self.untracked.add(st[2][2].local)
         self.cmpdef = {}
+        self.bool_defs = {}       # bool local -> [(block, kind, payload)] for every definition
+        self._collect_bool_defs()
         self.range_kind = {}
         self.unsupported = []
         self.obligations = []     # filled in the final pass
         self.remainders = {}      # local -> bb of the remainder() call
+
+    def _collect_bool_defs(self):
+        b = self.b
+        for bi, bl in enumerate(b.blocks):
+            if bl.cleanup:
+                continue
+            for st in bl.stmts:
+                if st[0] != 'a' or st[1].proj or b.locals[st[1].local].s != 'bool':
+                    continue
+                l, rv = st[1].local, st[2]
+                if rv[0] == 'bin' and rv[1] in ('Lt', 'Le', 'Gt', 'Ge', 'Eq', 'Ne'):
+                    d = ('cmp', (rv[1], rv[2], rv[3]))
+                elif rv[0] == 'un' and rv[1] == 'Not' and rv[2][0] in ('c', 'm') and not rv[2][1].proj:
+                    d = ('not', rv[2][1].local)
+                elif rv[0] == 'use' and rv[1][0] in ('c', 'm') and not rv[1][1].proj:
+                    d = ('copy', rv[1][1].local)
+                elif rv[0] == 'use' and rv[1][0] == 'k' and rv[1][1].i is not None:
+                    d = ('const', bool(rv[1][1].i))
+                else:
+                    d = ('other', None)
+                self.bool_defs.setdefault(l, []).append((bi, d[0], d[1]))
+            t = bl.term
+            if t[0] == 'call' and not t[4].proj and b.locals[t[4].local].s == 'bool':
+                self.bool_defs.setdefault(t[4].local, []).append((bi, 'call', t))
+
+    def refine_bool(self, z, l, truth, depth=0, at_def_only=None):
+        """Zones (disjuncts) describing `bool local l == truth` on top of z. A bool that is materialised from several
+        definitions (short-circuit `&&`/`||`, `let b = cond;`) is refined per possible definition, including the
+        branch conditions that dominate that definition."""
+        defs = self.bool_defs.get(l, [])
+        if depth > 6 or not defs:
+            return [z]
+        out = []
+        for bd, kind, payload in defs:
+            zc = z.copy()
+            if len(defs) > 1:
+                # the path went through this definition: apply the branch conditions that dominate it
+                zc = self._apply_dominating_conditions(zc, bd, depth)
+                if zc.bottom:
+                    continue
+            if kind == 'cmp':
+                self.constrain_cmp(zc, payload[0], payload[1], payload[2], truth)
+                res = [zc]
+            elif kind == 'not':
+                res = self.refine_bool(zc, payload, not truth, depth + 1)
+            elif kind == 'copy':
+                res = self.refine_bool(zc, payload, truth, depth + 1)
+            elif kind == 'const':
+                res = [zc] if payload == truth else []
+            elif kind == 'call':
+                cd = self.cmpdef.get(l)
+                if cd is not None and cd[0] == 'starts' and truth:
+                    zc.add(0, cd[1], -cd[2])
+                res = [zc]
+            else:
+                res = [zc]
+            out += [r for r in res if not r.bottom]
+        return out
+
+    def _apply_dominating_conditions(self, z, bd, depth):
+        """Refine z with every bool branch condition one of whose edges dominates block bd."""
+        b, cfg = self.b, self.cfg
+        for bj, bl in enumerate(b.blocks):
+            t = bl.term
+            if bl.cleanup or bj == bd or t[0] != 'switch' or t[1][0] not in ('c', 'm') or t[1][1].proj:
+                continue
+            l2 = t[1][1].local
+            if b.locals[l2].s != 'bool':
+                continue
+            zero_t = {tg for v, tg in t[2] if v == 0}
+            nonzero_t = {t[3]} | {tg for v, tg in t[2] if v != 0}
+            if zero_t & nonzero_t:
+                continue
+            truth2 = None
+            if zero_t and cfg.edges_dominate([(bj, tg) for tg in zero_t], bd):
+                truth2 = False
+            elif cfg.edges_dominate([(bj, tg) for tg in nonzero_t], bd):
+                truth2 = True
+            if truth2 is None:
+                continue
+            zs = self.refine_bool(z, l2, truth2, depth + 1)
+            if not zs:
+                return Zone.make_bottom(self.n)
+            acc = zs[0]
+            for x in zs[1:]:
+                acc = acc.join(x)
+            if len(zs) > 1:
+                acc.close()
+            z = acc
+        return z
 
     def _var(self, key, unsigned):
         if key not in self.keys:
@@ -336,22 +428,19 @@ class Interp:
             l = t[1][1].local
             zero_targets = {tg for v, tg in t[2] if v == 0}
             one_targets = {tg for v, tg in t[2] if v == 1}
-            cd = self.cmpdef.get(l)
-            neg = False
-            while cd is not None and cd[0] == 'Not':
-                neg = not neg
-                cd = self.cmpdef.get(cd[1])
-            if cd is not None and b.locals[l].s == 'bool':
+            if b.locals[l].s == 'bool':
                 truth = succ not in zero_targets
-                if succ in zero_targets and succ == t[3] and len(zero_targets) == 1 and t[3] in zero_targets:
-                    return z     # both edges to the same block
-                truth = truth != neg
-                if cd[0] == 'starts':
-                    if truth:
-                        z.add(0, cd[1], -cd[2])       # len >= patlen
-                else:
-                    self.constrain_cmp(z, cd[0], cd[1], cd[2], truth)
-                return z
+                if succ in zero_targets and succ == t[3]:
+                    return z     # both edges lead to the same block
+                zs = self.refine_bool(z, l, truth)
+                if not zs:
+                    return Zone.make_bottom(self.n)
+                acc = zs[0]
+                for x in zs[1:]:
+                    acc = acc.join(x)
+                if len(zs) > 1:
+                    acc.close()
+                return acc
             # discriminant of Option returned by an iterator's next()
             sd = single_def(b, l)
             if sd and sd[1] != 'term' and sd[2][0] == 'disc':
